@@ -35,6 +35,8 @@ class TlcResult:
 
 
 _PRINT_RE = re.compile(r'^"([A-Z_]+) (.*)"$')
+# a PrintT line can be interleaved with a TLC progress line: also look inside lines
+_PRINT_ANY_RE = re.compile(r'"([A-Z_]{2,}) ((?:[^"\\]|\\.)*)"')
 _GEN_RE = re.compile(r"^(\d+) states generated, (\d+) distinct states found")
 _DEPTH_RE = re.compile(r"^The depth of the complete state graph search is (\d+)")
 _INV_RE = re.compile(r"^Error: Invariant (\S+) is violated")
@@ -75,6 +77,13 @@ def parse_output(text, res):
                 raise TlcError(f"unparsable {tag} payload: {e}: {line[:200]}")
             res.prints.setdefault(tag, []).append(payload)
             continue
+        if '"' in line and not line.startswith('"'):
+            for m2 in _PRINT_ANY_RE.finditer(line):
+                try:
+                    payload = json.loads(_unescape(m2.group(2)))
+                except Exception:
+                    continue
+                res.prints.setdefault(m2.group(1), []).append(payload)
         m = _GEN_RE.match(line)
         if m:
             res.generated = int(m.group(1))
